@@ -790,12 +790,13 @@ class SArr:
     def copy(self):
         return SArr(self.shape_e, self.elem, self.kind, nan=self.nan, member=self.member, incr=self.incr)
 
-    def astype(self, t):
+    def astype(self, t, copy=True):
         k = kind_of_dtype(t)
         if k is None:
             raise Unsupported('astype %r' % (t,))
         if k == self.kind:
-            return self.copy()
+            # (ASSUMED numpy contract: a new array - unless copy=False and the dtype already matches, then the SAME array: an alias)
+            return self if copy is False else self.copy()
         old = self.elem
         if self.kind == 'i' and k == 'f':
             return SArr(self.shape_e, lambda *ix: z3.ToReal(old(*ix)), 'f')
